@@ -224,6 +224,11 @@ func onRuleUpdate(rawResRulesMap map[string][]*Rule) (err error) {
 			m[res] = newTcsOfRes
 		}
 	}
+	for res, tcs := range tcMapClone {
+		if _, inNewList := validResRulesMap[res]; !inNewList {
+			forgetRulesInForce(tcs, nil)
+		}
+	}
 
 	tcMux.Lock()
 	tcMap = m
@@ -320,6 +325,7 @@ func LoadRulesOfResource(res string, rules []*Rule) (bool, error) {
 		delete(currentRules, res)
 		// clear tcMap
 		tcMux.Lock()
+		forgetRulesInForce(tcMap[res], nil)
 		delete(tcMap, res)
 		rebuildRefTcMapLocked()
 		tcMux.Unlock()
@@ -380,12 +386,10 @@ func GetRules() []Rule {
 	return ret
 }
 
-// reportedRuleOf is the copy of a controller's rule that the getters hand out. It carries the ID the rule was
-// last loaded under: a controller kept for a rule that was only renamed still holds the old rule object.
+// reportedRuleOf is the copy of a controller's rule that the getters hand out: the rule as it was last loaded
+// (a controller kept for a rule that came again with the same fields still holds the old rule object).
 func reportedRuleOf(tc *TrafficShapingController) Rule {
-	ret := *tc.BoundRule()
-	ret.ID = tc.loadedRuleID()
-	return ret
+	return *ruleInForceOf(tc)
 }
 
 // GetRulesOfResource returns specific resource's rules based on copy.
@@ -593,6 +597,8 @@ func calculateReuseIndexFor(r *Rule, oldResTcs []*TrafficShapingController) (equ
 // buildResourceTrafficShapingController builds TrafficShapingController slice from rules. the resource of rules must be equals to res
 func buildResourceTrafficShapingController(res string, rulesOfRes []*Rule, oldResTcs []*TrafficShapingController) []*TrafficShapingController {
 	newTcsOfRes := make([]*TrafficShapingController, 0, len(rulesOfRes))
+	allOldResTcs := append([]*TrafficShapingController(nil), oldResTcs...)
+	defer func() { forgetRulesInForce(allOldResTcs, newTcsOfRes) }()
 	// Old controllers that belong to a rule which is unchanged in the new list are reserved for it:
 	// they must not donate their statistic to a modified rule that happens to be listed earlier,
 	// otherwise the unchanged rule is rebuilt from scratch and loses its runtime state.
@@ -608,7 +614,7 @@ func buildResourceTrafficShapingController(res string, rulesOfRes []*Rule, oldRe
 	// very same fields. Only rules that continue no old rule by ID are matched by their fields alone.
 	idInOld := make(map[string]bool, len(oldResTcs))
 	for _, oldTc := range oldResTcs {
-		idInOld[oldTc.loadedRuleID()] = true
+		idInOld[ruleInForceOf(oldTc).ID] = true
 	}
 	spokenFor := make(map[string]bool, len(rulesOfRes))
 	for _, rule := range rulesOfRes {
@@ -628,10 +634,10 @@ func buildResourceTrafficShapingController(res string, rulesOfRes []*Rule, oldRe
 				if reserved[oldTc] || !oldTc.BoundRule().isEqualsTo(rule) {
 					continue
 				}
-				if pass == 0 && oldTc.loadedRuleID() != rule.ID {
+				if pass == 0 && ruleInForceOf(oldTc).ID != rule.ID {
 					continue
 				}
-				if pass == 1 && spokenFor[oldTc.loadedRuleID()] {
+				if pass == 1 && spokenFor[ruleInForceOf(oldTc).ID] {
 					continue
 				}
 				reserved[oldTc] = true
@@ -650,7 +656,7 @@ func buildResourceTrafficShapingController(res string, rulesOfRes []*Rule, oldRe
 			continue
 		}
 		for _, oldTc := range oldResTcs {
-			if !reserved[oldTc] && keptFor[oldTc] == nil && oldTc.loadedRuleID() == rule.ID && oldTc.BoundRule().isStatReusable(rule) {
+			if !reserved[oldTc] && keptFor[oldTc] == nil && ruleInForceOf(oldTc).ID == rule.ID && oldTc.BoundRule().isStatReusable(rule) {
 				keptFor[oldTc] = rule
 				break
 			}
@@ -690,8 +696,8 @@ func buildResourceTrafficShapingController(res string, rulesOfRes []*Rule, oldRe
 			// reuse the old tc
 			equalOldTc := oldResTcs[equalIdx]
 			newTcsOfRes = append(newTcsOfRes, equalOldTc)
-			// The rule object in the controller stays; the ID it goes by from now on is the new rule's.
-			equalOldTc.setLoadedRuleID(rule.ID)
+			// The rule object in the controller stays; the rule it stands for from now on is the new one.
+			setRuleInForce(equalOldTc, rule)
 			// remove old tc from oldResTcs
 			oldResTcs = append(oldResTcs[:equalIdx], oldResTcs[equalIdx+1:]...)
 			continue
